@@ -30,8 +30,30 @@ struct Clock {
   requested: Vec<u64>,
 }
 
+/// The clock of the running case.  Every thread has its own one (all suites but `coop` run a case on
+/// one thread and never notice); suite `coop` hands the controller thread's clock to its worker threads
+/// (`handle` / `adopt`), so that timers created by a worker land in the case's clock.
+#[derive(Clone)]
+pub struct ClockHandle(Arc<Mutex<Clock>>);
+
 thread_local! {
-  static CLOCK: RefCell<Clock> = RefCell::new(Clock::default());
+  static CLOCK: RefCell<ClockHandle> = RefCell::new(ClockHandle(Arc::new(Mutex::new(Clock::default()))));
+}
+
+fn with_clock<R>(f: impl FnOnce(&mut Clock) -> R) -> R {
+  let h = CLOCK.with(|c| c.borrow().clone());
+  let mut g = h.0.lock().unwrap_or_else(|e| e.into_inner());
+  f(&mut g)
+}
+
+/// This thread's clock (to be adopted by another thread).
+pub fn handle() -> ClockHandle {
+  CLOCK.with(|c| c.borrow().clone())
+}
+
+/// Make `h` this thread's clock.
+pub fn adopt(h: ClockHandle) {
+  CLOCK.with(|c| *c.borrow_mut() = h);
 }
 
 struct VTimer(usize);
@@ -39,8 +61,7 @@ struct VTimer(usize);
 impl Future for VTimer {
   type Output = ();
   fn poll(self: Pin<&mut Self>, cx: &mut Context<'_>) -> Poll<()> {
-    CLOCK.with(|c| {
-      let mut c = c.borrow_mut();
+    with_clock(|c| {
       let t = &mut c.timers[self.0];
       if t.fired {
         Poll::Ready(())
@@ -74,8 +95,7 @@ fn millis(d: Duration) -> u64 {
 }
 
 fn new_timer(d: Duration) -> BoxFuture<'static, ()> {
-  let id = CLOCK.with(|c| {
-    let mut c = c.borrow_mut();
+  let id = with_clock(|c| {
     let due = c.now + millis(d);
     c.timers.push(TimerRec { due, fired: false, waker: None });
     c.requested.push(millis(d));
@@ -89,29 +109,28 @@ pub fn install() {
 }
 
 pub fn reset() {
-  CLOCK.with(|c| *c.borrow_mut() = Clock::default());
+  with_clock(|c| *c = Clock::default());
 }
 
 pub fn now() -> u64 {
-  CLOCK.with(|c| c.borrow().now)
+  with_clock(|c| c.now)
 }
 
 pub fn advance(d: u64) {
-  CLOCK.with(|c| c.borrow_mut().now += d);
+  with_clock(|c| c.now += d);
 }
 
 pub fn timers_created() -> usize {
-  CLOCK.with(|c| c.borrow().timers.len())
+  with_clock(|c| c.timers.len())
 }
 
 pub fn requested() -> Vec<u64> {
-  CLOCK.with(|c| c.borrow().requested.clone())
+  with_clock(|c| c.requested.clone())
 }
 
 /// Ids of the timers that are due and not yet fired, in creation order.
 pub fn due_timers() -> Vec<usize> {
-  CLOCK.with(|c| {
-    let c = c.borrow();
+  with_clock(|c| {
     c.timers
       .iter()
       .enumerate()
@@ -123,8 +142,7 @@ pub fn due_timers() -> Vec<usize> {
 
 /// Fire one timer (the caller guarantees it is due): wake whoever awaits it.
 pub fn fire(id: usize) {
-  let w = CLOCK.with(|c| {
-    let mut c = c.borrow_mut();
+  let w = with_clock(|c| {
     c.timers[id].fired = true;
     c.timers[id].waker.take()
   });
